@@ -42,7 +42,7 @@ def main():
             return 3
         res = {}
         for d in ("clean", "mut"):
-            r = sh("D3_PATH=%s/%s /venv/bin/python %s/demo.py" % (w, d, src), timeout=1800)
+            r = sh("D3_PATH=%s/%s /venv/bin/python %s/demo.py %s/%s" % (w, d, src, w, d), timeout=1800)
             res[d] = (r.returncode, (r.stdout + r.stderr).strip().splitlines()[-1:] or [""])
         print("demo clean:", res["clean"], " demo changed:", res["mut"])
         confirmed = res["clean"][0] == 0 and res["mut"][0] != 0
